@@ -31,7 +31,7 @@ type C04Phase struct {
 	BAddr         string   `json:"baddr"` // TCP address of the second (remote) daemon; "" = none
 	Index         int      `json:"index"`
 	Final         bool     `json:"final"`                     // judge instead of crashing
-	Subs          []string `json:"subs,omitempty"`            // submissions of this incarnation: cmd-short cmd-slow cmd-fail remote-cmd remote-absent
+	Subs          []string `json:"subs,omitempty"`            // submissions of this incarnation: cmd-short cmd-slow cmd-fail remote-cmd remote-short remote-absent
 	GapMs         int      `json:"gap_ms"`                    // pause between submissions
 	Crash         string   `json:"crash,omitempty"`           // "role:point:n" (hook) or ""
 	KillMs        int      `json:"kill_ms"`                   // the process kills itself this long after start if the crash point was not reached
@@ -56,7 +56,11 @@ var c04Scripts = map[string]string{
 	"cmd-slow":   "seq 1 100; sleep 1.5; seq 101 200",
 	"cmd-fail":   "seq 1 50; exit 3",
 	"remote-cmd": "seq 1 100; sleep 1; seq 101 200",
+	// finishes at once on the remote node: the submitter learns "Succeeded, N bytes" before it has fetched the output
+	"remote-short": "echo start; seq 1 300; echo end",
 }
+
+func c04IsRemoteCmd(kind string) bool { return kind == "remote-cmd" || kind == "remote-short" }
 
 func seqText(a, b int) string {
 	var sb strings.Builder
@@ -68,7 +72,7 @@ func seqText(a, b int) string {
 
 func c04Output(kind string) string {
 	switch kind {
-	case "cmd-short":
+	case "cmd-short", "remote-short":
 		return "start\n" + seqText(1, 300) + "end\n"
 	case "cmd-slow", "remote-cmd":
 		return seqText(1, 200)
@@ -246,7 +250,7 @@ func c04Work(p C04Phase, wn *WNode, n *netceptor.Netceptor) vx.Verdict {
 	}()
 	needRemote := false
 	for _, k := range p.Subs {
-		if k == "remote-cmd" {
+		if c04IsRemoteCmd(k) {
 			needRemote = true
 		}
 	}
@@ -265,7 +269,7 @@ func c04Work(p C04Phase, wn *WNode, n *netceptor.Netceptor) vx.Verdict {
 		}
 		req := map[string]interface{}{"node": "na", "worktype": "cmd", "params": "'" + c04Scripts[kind] + "'"}
 		switch kind {
-		case "remote-cmd":
+		case "remote-cmd", "remote-short":
 			req["node"] = "nb"
 		case "remote-absent":
 			req["node"], req["params"] = "absent", "'true'"
@@ -348,7 +352,7 @@ func c04Judge(p C04Phase, wn *WNode, n *netceptor.Netceptor, started time.Time) 
 	remoteIDSavedHit := bytes.Count(hookHits, []byte(" daemon remote.after_unitid_saved"))
 	remoteCmdAcked := 0
 	for _, id := range order {
-		if units[id].kind == "remote-cmd" {
+		if c04IsRemoteCmd(units[id].kind) {
 			remoteCmdAcked++
 		}
 	}
@@ -377,8 +381,10 @@ func c04Judge(p C04Phase, wn *WNode, n *netceptor.Netceptor, started time.Time) 
 		if strings.HasPrefix(u.kind, "remote") {
 			wantType = "remote"
 		}
-		if st.WorkType == "" && strings.Contains(st.Detail, "unexpected end of JSON input") {
-			// the status record is empty: the process was killed between truncating the record and writing it again
+		killedInRewrite := bytes.Contains(hookHits, []byte("update.after_truncate")) || bytes.Contains(hookHits, []byte("save.after_open_truncate"))
+		if st.WorkType == "" && (strings.Contains(st.Detail, "unexpected end of JSON input") || killedInRewrite) {
+			// the status record is empty: the process was killed between truncating the record and writing it again. (If the unit's
+			// runner is still alive it then rebuilds a record from the empty one: state and size, but no work type.)
 			sig := "C04/empty-status-record-after-kill-between-truncate-and-write"
 			if vx.IsKnown("C04", sig) {
 				knownC04[sig]++
@@ -392,11 +398,11 @@ func c04Judge(p C04Phase, wn *WNode, n *netceptor.Netceptor, started time.Time) 
 		}
 		if wantType == "remote" {
 			rn, rt, ru := st.extra("RemoteNode"), st.extra("RemoteWorkType"), st.extra("RemoteUnitID")
-			wantNode := map[string]string{"remote-cmd": "nb", "remote-absent": "absent"}[u.kind]
+			wantNode := map[string]string{"remote-cmd": "nb", "remote-short": "nb", "remote-absent": "absent"}[u.kind]
 			if rn != wantNode || rt != "cmd" {
 				return vx.CertainViolation("acked-units-survive", "C04/remote-binding-lost", "remote unit %s is bound to node %q type %q after the restart, submitted to %q type cmd", id, rn, rt, wantNode)
 			}
-			if u.kind == "remote-cmd" && ru == "" && remoteIDSavedHit == 1 && remoteCmdAcked == 1 {
+			if c04IsRemoteCmd(u.kind) && ru == "" && remoteIDSavedHit == 1 && remoteCmdAcked == 1 {
 				// the hook point right after "remote unit ID recorded" had been passed for the only remote unit of this history
 				return vx.CertainViolation("acked-units-survive", "C04/remote-unit-id-not-persisted", "remote unit %s: the daemon was killed after the remote node had acknowledged the unit and after the point where its ID is recorded, but the restarted daemon knows no remote unit ID for it (the remote node keeps an orphan)", id)
 			}
@@ -423,6 +429,7 @@ func c04Judge(p C04Phase, wn *WNode, n *netceptor.Netceptor, started time.Time) 
 	}
 	// ---- outcomes
 	unconstrained := 0
+	var completed []string
 	for _, id := range order {
 		u := units[id]
 		if u == nil || u.kind == "remote-absent" {
@@ -435,7 +442,7 @@ func c04Judge(p C04Phase, wn *WNode, n *netceptor.Netceptor, started time.Time) 
 		}
 		var last c04Status
 		deadline := 45 * time.Second
-		if u.kind == "remote-cmd" {
+		if c04IsRemoteCmd(u.kind) {
 			deadline = 90 * time.Second
 			if !u.remoteStarted {
 				unconstrained++
@@ -515,9 +522,45 @@ func c04Judge(p C04Phase, wn *WNode, n *netceptor.Netceptor, started time.Time) 
 				return vx.Violation("output-still-fetchable", "C04/size-wrong:"+u.kind, "unit %s (%s) finished with StdoutSize %d, its output has %d bytes", id, u.kind, last.StdoutSize, len(want))
 			}
 			labels = append(labels, "completed:"+u.kind)
+			completed = append(completed, id)
 		} else {
 			unconstrained++
 		}
+	}
+	// ---- it stays that way: the restarted daemon's own monitors (for remote work they start once the remote node is reachable
+	// again) must leave finished units as they are - same state, same size, same bytes
+	if len(completed) > 0 {
+		anyRemote := false
+		for _, id := range completed {
+			anyRemote = anyRemote || c04IsRemoteCmd(units[id].kind)
+		}
+		if anyRemote {
+			vx.WaitFor(10*time.Second, 50*time.Millisecond, func() string {
+				if n.Status().RoutingTable["nb"] == "" {
+					return "no route"
+				}
+				return ""
+			})
+			time.Sleep(2500 * time.Millisecond) // connect retry 1 s + monitor poll 1 s
+		} else {
+			time.Sleep(300 * time.Millisecond)
+		}
+		again, err := listUnits(wn.Sock, 5*time.Second)
+		if err != nil {
+			return vx.Violation("no-query-blocks", "C04/list-blocked", "second 'work list': %v", err)
+		}
+		for _, id := range completed {
+			u, st := units[id], again[id]
+			want := c04Output(u.kind)
+			if !(st.State == workceptor.WorkStateSucceeded || st.State == workceptor.WorkStateFailed) || (st.StdoutSize != int64(len(want)) && !runnerKilledFn()) {
+				return vx.CertainViolation("finished-stays-finished", "C04/final-state-changed-later:"+u.kind, "unit %s (%s) had reached its final state with %d bytes after the restart; a few seconds later it is reported %s with %d bytes (%q)", id, u.kind, len(want), workceptor.WorkStateToString(st.State), st.StdoutSize, st.Detail)
+			}
+			res := fetchResults("unix", wn.Sock, id, 0, false, 30*time.Second)
+			if string(res.data) != want || !res.eof {
+				return vx.CertainViolation("output-still-fetchable", "C04/output-changed-later:"+u.kind, "unit %s (%s): complete output (%d bytes) was fetched right after the restart; a few seconds later 'work results' returns %d bytes (closed %v), first difference at %d", id, u.kind, len(want), len(res.data), res.eof, firstDiff(res.data, []byte(want)))
+			}
+		}
+		labels = append(labels, "rechecked-later")
 	}
 	v := vx.OK(crashes >= 1 && len(order) >= 1, dedup(labels)...)
 	v.Unconstrained = unconstrained
